@@ -45,6 +45,7 @@ type vfPuppet struct {
 	peerCookie    []byte
 	autoHS        bool
 	silent        bool // do not answer anything
+	noCookieAck   bool // answer INIT, never COOKIE-ECHO
 	// honest receiver model for auto-SACK
 	autoSack  bool
 	rcvCum    uint32
@@ -128,7 +129,7 @@ func (p *vfPuppet) recv(raw []byte) {
 			p.send(wChunk{Type: wtCOOKIEECHO, Val: p.peerCookie})
 		case wtCOOKIEECHO:
 			p.gotCookieEcho++
-			if !p.autoHS {
+			if !p.autoHS || p.noCookieAck {
 				continue
 			}
 			p.established = true
